@@ -36,6 +36,7 @@ package validate
 //@   trusted
 //@   results t, outCaps, err
 //@   ensures caps_wf: (!isnil(caps) && capOK(caps)) ==> (!isnil(outCaps) && capOK(outCaps))
+//@   ensures lub_sorted: (t is typeEntity) ==> sortedET(t.(typeEntity).lub.elements)   // entityLUB documents its elements as "sorted, unique" (assumed here)
 // compareCedarType returns 0 only for two types of the same kind (the kinds have pairwise different
 // ranks), and for extension types only when they carry the same name: `Long < datetime` and
 // `datetime < duration` compare unequal.
@@ -197,6 +198,19 @@ package validate
 //@   results r
 //@   ensures entities_only: r ==> ((a is typeEntity) && (b is typeEntity))
 //@   ensures no_common_member: r ==> !(exists p int, q int :: 0 <= p && p < len(a.(typeEntity).lub.elements) && 0 <= q && q < len(b.(typeEntity).lub.elements) && a.(typeEntity).lub.elements[p] == b.(typeEntity).lub.elements[q])
+
+// `l == r` / `l != r` gets a singleton type (True or False) - which makes the checker skip the branch
+// the comparison guards - only for one variable compared with itself, for two literals, or for
+// operand types that are disjoint; and the polarity follows `negated`.
+//@ spec func sameVar(l ast.IsNode, r ast.IsNode) bool = (l is ast.NodeTypeVariable) && (r is ast.NodeTypeVariable) && l.(ast.NodeTypeVariable).Name == r.(ast.NodeTypeVariable).Name
+//@ spec func bothLit(l ast.IsNode, r ast.IsNode) bool = (l is ast.NodeValue) && (r is ast.NodeValue)
+//@ func (Validator) typeOfEquality
+//@   props C15
+//@   results t, c, err
+//@   ensures singleton_justified: (err == nil && ((t is typeFalse) || (t is typeTrue))) ==> (sameVar(left, right) || bothLit(left, right) || areTypesDisjoint#0(v.typeOfExpr#0(env, left, caps), v.typeOfExpr#0(env, right, caps)))
+//@   ensures polarity_same_variable: (err == nil && sameVar(left, right)) ==> ((t is typeTrue) == !negated)
+//@   ensures polarity_disjoint: (err == nil && !sameVar(left, right) && !bothLit(left, right) && areTypesDisjoint#0(v.typeOfExpr#0(env, left, caps), v.typeOfExpr#0(env, right, caps))) ==> ((t is typeFalse) == !negated)
+//@   ensures caps_unchanged: c == caps
 
 // `a && b` checks b under the capabilities of a merged into the incoming ones: merge is the union.
 //@ func (capabilitySet) merge
